@@ -104,6 +104,13 @@ def ensure_not_closed(func: Callable[..., Any]) -> Callable[..., Any]:
     return func_wrapper
 
 
+def _copy_dictionaries(value: Any) -> Any:
+    """Recursively copy the mapping but only create copies of the dictionaries not the values."""
+    if isinstance(value, dict):
+        return {key: _copy_dictionaries(subvalue) for key, subvalue in value.items()}
+    return value
+
+
 @persistence.auto_persist(
     '_pid',
     '_creation_time',
@@ -304,7 +311,8 @@ class Process(StateMachine, persistence.Savable, metaclass=ProcessStateMachineMe
         self._paused = None
 
         # Input/output
-        self._raw_inputs = None if inputs is None else utils.AttributesFrozendict(inputs)
+        # The dictionaries (not the values) are copied: what the caller does with its own afterwards must not show
+        self._raw_inputs = None if inputs is None else utils.AttributesFrozendict(_copy_dictionaries(inputs))
         self._pid = pid
         self._parsed_inputs: Optional[utils.AttributesFrozendict] = None
         self._outputs: Dict[str, Any] = {}
@@ -776,18 +784,12 @@ class Process(StateMachine, persistence.Savable, metaclass=ProcessStateMachineMe
         """Entering the CREATED state."""
         self._creation_time = time.time()
 
-        def recursively_copy_dictionaries(value: Any) -> Any:
-            """Recursively copy the mapping but only create copies of the dictionaries not the values."""
-            if isinstance(value, dict):
-                return {key: recursively_copy_dictionaries(subvalue) for key, subvalue in value.items()}
-            return value
-
         # This will parse the inputs with respect to the input portnamespace of the spec and validate them. The
         # ``pre_process`` method of the inputs port namespace modifies its argument in place, and since the
         # ``_raw_inputs`` should not be modified, we pass a clone of it. Note that we only need a clone of the nested
         # dictionaries, so we don't use ``copy.deepcopy`` (which might seem like the obvious choice) as that will also
         # create a clone of the values, which we don't want.
-        raw_inputs = recursively_copy_dictionaries(dict(self._raw_inputs)) if self._raw_inputs else {}
+        raw_inputs = _copy_dictionaries(dict(self._raw_inputs)) if self._raw_inputs else {}
         self._parsed_inputs = self.spec().inputs.pre_process(raw_inputs)
         result = self.spec().inputs.validate(self._parsed_inputs)
 
